@@ -2,6 +2,7 @@
 protocol of BasicStatements.visit, and the ownership order of the visit contracts."""
 from coco.b09 import elements as E
 from coco.b09 import visitors as V
+from tx.tier import THOROUGH, pick
 from tx import opaque
 from tx.opaque import OpqExp, OpqStmt, RecordingVisitor, TRACE, OpaqueUse
 
@@ -19,6 +20,11 @@ def guarded(oid, fn, detail=""):
         return [ob(oid, False, "no inspection of opaque parts", "opaque part inspected: %s" % e, detail)]
     except Exception as e:  # noqa
         return [ob(oid, False, "no exception", "%s: %s" % (type(e).__name__, e), detail)]
+
+
+def norm(t):
+    from tx.run_cases import norm as _n
+    return _n(t)
 
 
 def functional(tag, is_str=False, nargs=1):
@@ -119,6 +125,32 @@ def patcher_steps():
         p.visit_exp(f)
         return [ob("patch/assignment-target-is-result", f.var is v and A.pre_assignment_statements == [], "result variable is the assignment target", repr(f.var))]
     out += guarded("patch/assignment-target-is-result", step5)
+
+    # 6. the whole pass on an assignment whose right-hand side wraps a convertible function in any way: the call is emitted
+    #    exactly once, with its operand, and the assigned expression reads the call's result variable
+    def step6():
+        res = []
+        wraps = {
+            "bare": (lambda f: f, None),
+            "paren": (lambda f: E.BasicParenExp(f), "(tmp_1)"),
+            "double-paren": (lambda f: E.BasicParenExp(E.BasicParenExp(f)), "((tmp_1))"),
+            "unary-minus": (lambda f: E.BasicOpExp("-", f), "- tmp_1"),
+            "sum-left": (lambda f: E.BasicBinaryExp(f, "+", OpqExp("e")), "tmp_1 + " + str(opaque.mark("e", 0))),
+            "sum-right": (lambda f: E.BasicBinaryExp(OpqExp("e"), "+", f), str(opaque.mark("e", 0)) + " + tmp_1"),
+            "paren-sum": (lambda f: E.BasicBinaryExp(E.BasicParenExp(f), "*", OpqExp("e")), "(tmp_1) * " + str(opaque.mark("e", 0))),
+        }
+        for name, (wrap, rhs) in wraps.items():
+            opaque.reset()
+            v = E.BasicVar("X")
+            f = functional("f")
+            A = E.BasicAssignment(v, wrap(f))
+            A.visit(V.BasicFunctionalExpressionPatcherVisitor())
+            text = norm(A.basic09_text(0))
+            call = "run ecb_f(%s, %s)" % (opaque.mark("f_a1", 0), "X" if rhs is None else "tmp_1")
+            want = call if rhs is None else call + " \\ X := " + rhs
+            res.append(ob("patch/assignment of a wrapped call/%s" % name, text == want, want, text))
+        return res
+    out += guarded("patch/assignment of a wrapped call", step6)
     return out
 
 
@@ -131,14 +163,14 @@ def temp_freshness():
         S = OpqStmt("S")
         seen = set()
         ok = True
-        for k in range(300):
+        for k in range(pick(300, 3000)):
             for is_str in (False, True):
                 v = S.get_new_temp(is_str)
                 nm = v.name()
                 if nm in seen or nm != ("tmp_%d$" % (k + 1) if is_str else "tmp_%d" % (k + 1)) or v.is_str_expr != is_str:
                     ok = False
                 seen.add(nm)
-        return [ob("temps/fresh-for-k<300", ok, "tmp_1.. distinct", "ok" if ok else "collision", bounded="k < 300")]
+        return [ob("temps/fresh-for-k<300", ok, "tmp_1.. distinct", "ok" if ok else "collision", bounded="k < %d" % pick(300, 3000))]
     return guarded("temps/fresh-for-k<300", run)
 
 
@@ -202,5 +234,33 @@ def ownership_order():
     return [ob("contracts/expression-parts-before-statement-parts", not bad, [], bad, "structural obligation on the V contracts themselves")]
 
 
+def temp_sequences():
+    """get_new_temp for every order of requests: the k-th temporary of a kind is tmp_k (tmp_k$), whatever was requested
+    in between - two hoisted calls of one statement never share a name"""
+    import itertools
+
+    def run():
+        bad = []
+        n = 0
+        for length in range(1, 9):
+            for kinds in itertools.product((False, True), repeat=length):
+                S = OpqStmt("S")
+                cnt = {False: 0, True: 0}
+                names = []
+                for is_str in kinds:
+                    v = S.get_new_temp(is_str)
+                    cnt[is_str] += 1
+                    names.append(v.name())
+                    want = "tmp_%d%s" % (cnt[is_str], "$" if is_str else "")
+                    if v.name() != want or v.is_str_expr != is_str:
+                        bad.append(dict(requests=["str" if k else "num" for k in kinds], got=names[:], expected_last=want))
+                        break
+                n += 1
+                if len(set(names)) != len(names) and not bad:
+                    bad.append(dict(requests=["str" if k else "num" for k in kinds], got=names, problem="a name handed out twice"))
+        return [ob("temps/every order of numeric and string requests up to 8", not bad and n == 510, "k-th of a kind is tmp_k / tmp_k$, all distinct", bad[:3] or "%d sequences" % n)]
+    return guarded("temps/sequences", run)
+
+
 def obligations():
-    return patcher_steps() + temp_freshness() + replacement_protocol() + print_patcher() + ownership_order()
+    return patcher_steps() + temp_freshness() + temp_sequences() + replacement_protocol() + print_patcher() + ownership_order()
